@@ -31,7 +31,8 @@ func NewIpnEndpoint(uri string) (e EndpointType, err error) {
 	// - an ASCII dot
 	// - service number: ASCII numeric digits between 1 and (2^64-1)
 
-	re := regexp.MustCompile("^" + ipnEndpointSchemeName + ":(\\d+)\\.(\\d+)$")
+	// Numbers are written without leading zeros; otherwise, different URIs would name the same endpoint.
+	re := regexp.MustCompile("^" + ipnEndpointSchemeName + ":(0|[1-9]\\d*)\\.(0|[1-9]\\d*)$")
 	matches := re.FindStringSubmatch(uri)
 	if len(matches) != 3 {
 		err = fmt.Errorf("uri does not match an ipn endpoint")
